@@ -19,8 +19,11 @@ func init() { extraFactFns = append(extraFactFns, c13Facts) }
 func c13Facts(fc *facts) {
 	f := parseFile("storage/snapshots/savepoint_artifact.go")
 	fn := findFunc(f, "", "pathSegment")
+	segNames := []string{"segComplementOf", "segWidth", "segBigEndian", "segURLAlphabet", "segPadded"}
 	if fn == nil || fn.Body == nil {
-		problem("snapshots.pathSegment not found")
+		// the whole encoding is observed by C13 (ops `seg`, `init`, `files`): keep the last good values and let
+		// the correspondence decide (tools/gofacts/fallbacks.json)
+		problemFor(segNames, "snapshots.pathSegment not found")
 		return
 	}
 	param := ""
@@ -76,7 +79,11 @@ func c13Facts(fc *facts) {
 		return true
 	})
 	if nSub != 1 || nMake != 1 || nPut != 1 || nEnc != 1 || len(fn.Body.List) != 4 {
-		problem("snapshots.pathSegment no longer has the translated shape (sub=%d make=%d put=%d enc=%d stmts=%d)", nSub, nMake, nPut, nEnc, len(fn.Body.List))
+		problemFor(segNames, "snapshots.pathSegment no longer has the translated shape (sub=%d make=%d put=%d enc=%d stmts=%d)", nSub, nMake, nPut, nEnc, len(fn.Body.List))
+		return
+	}
+	if !haveCompl || !haveWidth {
+		problemFor(segNames, "snapshots.pathSegment: complement constant or buffer width not in the expected shape")
 		return
 	}
 	fc.set("segComplementOf", compl, haveCompl, "<const> - id")
